@@ -43,8 +43,12 @@ Fixpoint fu_freshes (cfg : fu_cfg) (n : nat) (s : fu_st) : list ident * fu_st :=
    names generated while unrolling nested loops are refreshed *)
 Definition fu_body_copy (cfg : fu_cfg) (target : pat) (t : ident) (index : expr) (body : block)
     (nested : list ident) (s : fu_st) : list stmt * fu_st :=
-  let '(fresh, s1) := fu_freshes cfg (List.length nested) s in
-  (SAssign target (ERef (EVar t) index) :: ren_block (combine nested fresh) body, s1).
+  match nested with
+  | [] => (SAssign target (ERef (EVar t) index) :: body, s)      (* clone_block: the body as it is *)
+  | _ =>
+      let '(fresh, s1) := fu_freshes cfg (List.length nested) s in
+      (SAssign target (ERef (EVar t) index) :: ren_block (combine nested fresh) body, s1)
+  end.
 
 Fixpoint fu_copies (cfg : fu_cfg) (target : pat) (t : ident) (indices : list expr) (body : block)
     (nested : list ident) (s : fu_st) : list stmt * fu_st :=
